@@ -316,6 +316,29 @@ func rewriteFile(rel string, src []byte) ([]byte, counts, bool, error) {
 					Args: []ast.Expr{&ast.BasicLit{Kind: token.STRING, Value: strconv.Quote("monitor")}, se},
 				}}
 			}
+			if rel == "core/engine.go" {
+				// serve() / startEventLoop start the refresh goroutine, the statistics loop and the event-loop goroutine: the
+				// harness runs the first and the last itself (under its scheduler), so the go statements only record themselves
+				c["go-captured"]++
+				usesVsys = true
+				return &ast.ExprStmt{X: &ast.CallExpr{
+					Fun: &ast.SelectorExpr{X: ast.NewIdent(vsysName), Sel: ast.NewIdent("GoCaptured")},
+					Args: []ast.Expr{&ast.FuncLit{Type: &ast.FuncType{Params: &ast.FieldList{}}, Body: &ast.BlockStmt{List: []ast.Stmt{&ast.ExprStmt{X: st.Call}}}}},
+				}}
+			}
+			walkFuncLits(st.Call)
+			return st
+		case *ast.DeferStmt:
+			if rel == "core/engine.go" {
+				if se, ok := st.Call.Fun.(*ast.SelectorExpr); ok && se.Sel.Name == "stop" {
+					// serve() ends in `defer eng.stop(e)`, which blocks until shutdown: under the harness serve() returns
+					c["defer-stop-skipped"]++
+					usesVsys = true
+					st.Call = &ast.CallExpr{Fun: &ast.SelectorExpr{X: ast.NewIdent(vsysName), Sel: ast.NewIdent("Skipped")},
+						Args: []ast.Expr{&ast.BasicLit{Kind: token.STRING, Value: strconv.Quote("engine.stop")}}}
+					return st
+				}
+			}
 			walkFuncLits(st.Call)
 			return st
 		case *ast.BlockStmt:
